@@ -1243,6 +1243,11 @@ func (s *shard) syncReplayWal(ctx context.Context) error {
 	if err != nil {
 		return err
 	}
+	// a cancelled replay (shard closed meanwhile) also returns every file name and no error, but has
+	// re-applied only a part of the log: keep the files for the next open
+	if err = ctx.Err(); err != nil {
+		return err
+	}
 	s.log.Info("replay wal files ok", zap.Uint64("id", s.ident.ShardID), zap.Uint64("opId", s.opId), zap.Duration("time used", time.Since(wStart)))
 
 	s.ForceFlush()
